@@ -19,7 +19,8 @@ RULE = ("One constrained node per program (int / float with units, str, bool; sc
         "known by construction (never computed with re or the logical solver). Oracle: all satisfied -> parse() "
         "returns and the value equals the model; any violated -> parse() raises. Non-trivial: >=2 constraint kinds on "
         "the node, or an option/threshold in another unit, or a boundary (ON/NEAR) value. "
-        "Also: array values returned by a registered function; a !condition that refers to another node, with either node "
+        "Also: the mirror image of a numeric case (all numbers negated, inequalities reversed); two !condition lines on one "
+        "node; typed re-definitions of arrays with dimensions of their own; array values returned by a registered function; a !condition that refers to another node, with either node "
         "assigned last, in the same text or in a second parse on top of the returned environment. "
         "Distinct = distinct rendered text.")
 ASSUMPTIONS = [
@@ -170,9 +171,12 @@ def numeric_case(draw):
     trail = []
     for _ in range(nmods):
         trail.append(base * 3 + 1 if not is_int else base + 977)     # intermediate values may violate: only the final counts
-    return {"kind": "numeric", "int": is_int, "type": draw(st.sampled_from(["int", "int64", "uint32"] if is_int else ["float", "float32"])),
+    tkw = draw(st.sampled_from(["int", "int64", "uint32"] if is_int else ["float", "float32"]))
+    # mirror image: every number negated and every inequality reversed (bounds and values below zero)
+    neg = tkw != "uint32" and draw(st.integers(0, 3)) == 0
+    return {"kind": "numeric", "int": is_int, "type": tkw,
             "unit": unit, "dim": dim, "final": base, "cons": cons, "expect_ok": sat, "trail": trail,
-            "declared": draw(st.integers(0, 4)) == 0 and nmods > 0}
+            "declared": draw(st.integers(0, 4)) == 0 and nmods > 0, "neg": neg}
 
 
 @st.composite
@@ -303,18 +307,80 @@ def cross_node_case(draw):
     return {"kind": "cross_node", "lines": lines, "change": change, "stage2": change if two_stage else None, "expect_ok": ok}
 
 
+@st.composite
+def two_conditions_case(draw):
+    """two !condition lines on one node: whether the second replaces the first or both must hold, a node that satisfies
+    the first and violates the second is refused, and one that satisfies both is accepted"""
+    v_ = draw(st.integers(-20, 20))
+    lo = v_ + draw(st.integers(1, 5))            # v < lo  is true
+    hi = v_ + draw(st.integers(6, 30))           # v > hi  is false
+    first = draw(st.sampled_from([f"{{?}} < {lo} || {{?}} > {hi}", f"{{?}} > {hi} || {{?}} < {lo}", f"{{?}} < {lo}"]))
+    ok = draw(st.booleans())
+    second = f"{{?}} > {v_ - draw(st.integers(1, 9))}" if ok else f"{{?}} > {v_ + draw(st.integers(0, 4))}"
+    third = draw(st.sampled_from([None, None, f"{{?}} != {v_ + 100}"]))
+    lines = [f"x int = {v_}", f'  !condition ("{first}")', f'  !condition ("{second}")']
+    if third and ok:
+        lines.append(f'  !condition ("{third}")')
+    via_mod = draw(st.booleans())
+    if via_mod:
+        lines[0] = f"x int = {v_ + 1000}"
+        lines.append(f"x = {v_}")
+    return {"kind": "lines", "lines": lines, "expect_ok": ok, "what": "two_conditions"}
+
+
+@st.composite
+def array_redef_case(draw):
+    """a typed re-definition states dimensions of its own; the bounds of the ORIGINAL declaration still apply"""
+    lo, hi = draw(st.sampled_from([(2, 3), (1, 2), (2, 4)]))
+    n = draw(st.integers(1, hi + 2))
+    ok = lo <= n <= hi
+    own = draw(st.sampled_from([str(n), ":", f"{n}:", f":{n}"]))
+    lit = lambda k: "[" + ",".join(str(i) for i in range(k)) + "]"
+    lines = [f"x int[{lo}:{hi}] = {lit(lo)}", f"x int[{own}] = {lit(n)}"]
+    return {"kind": "lines", "lines": lines, "expect_ok": ok, "what": "array_redefinition",
+            "stage2": lines.pop() if draw(st.booleans()) else None}
+
+
 def strategies(tier):
     return {"numeric": (numeric_case(), 2500, 60000), "string": (string_case(), 800, 20000), "bool": (bool_case(), 200, 4000),
             "array": (array_case(), 600, 12000), "declaration": (decl_case(), 150, 2000),
             "imported": (imported_case(), 300, 6000), "same_literal": (same_literal_case(), 300, 6000),
-            "cross_node": (cross_node_case(), 400, 8000)}
+            "cross_node": (cross_node_case(), 400, 8000),
+            "two_conditions": (two_conditions_case(), 300, 6000), "array_redef": (array_redef_case(), 300, 6000)}
 
 
 # --------------------------------------------------------------------------- rendering
 
+def _negt(t):
+    return t[1:] if t.startswith("-") else "-" + t
+
+
+MIRROR = {"<": ">", ">": "<", "<=": ">=", ">=": "<=", "==": "==", "!=": "!="}
+
+
+def _mirrored(case):
+    """the numeric case with every number negated and every inequality reversed"""
+    c = json.loads(json.dumps(case))
+    c["final"] = -c["final"]
+    c["trail"] = [-x for x in c["trail"]]
+    for con in c["cons"]:
+        if con["k"] == "options":
+            con["opts"] = [[_negt(t), u] for t, u in con["opts"]]
+        elif con["k"] == "options_list":
+            con["vals"] = [_negt(t) for t in con["vals"]]
+        else:
+            for cm in con["comps"]:
+                cm["thr"] = _negt(cm["thr"])
+                cm["op"] = MIRROR[cm["op"]]
+    c["neg"] = False
+    return c
+
+
 def render(case):
     k = case["kind"]
     L = []
+    if k == "numeric" and case.get("neg"):
+        return render(_mirrored(case))
     if k == "numeric":
         u = f" {case['unit']}" if case["unit"] else ""
         vals = case["trail"] + [case["final"]]
@@ -405,6 +471,8 @@ def render(case):
         else:
             L.append("copy {?*}")
             L.append(f"copy.g.x = {case['assign']}")
+    elif k == "lines":
+        L += case["lines"]
     elif k == "cross_node":
         L += case["lines"]
         if not case["stage2"]:
@@ -467,11 +535,12 @@ def _check(case, v):
             got = got[0]
         got = D.to_py(got)
         k = case["kind"]
-        if k in ("imported", "same_literal", "cross_node"):
+        if k in ("imported", "same_literal", "cross_node", "lines"):
             pass
         elif k == "numeric":
-            if not close(got, case["final"], 1e-9):
-                return v.fail("value", f"x = {got!r}, expected {case['final']!r}:\n{text}")
+            want = -case["final"] if case.get("neg") else case["final"]
+            if not close(got, want, 1e-9):
+                return v.fail("value", f"x = {got!r}, expected {want!r}:\n{text}")
         elif k in ("string", "bool"):
             if got != case["final"]:
                 return v.fail("value", f"x = {got!r}, expected {case['final']!r}:\n{text}")
@@ -484,10 +553,12 @@ def _check(case, v):
                      (c["k"] == "options_list" and c["unit"] != case.get("unit")) or
                      (c["k"] == "condition" and any(cm["unit"] and cm["unit"] != case.get("unit") for cm in c["comps"]))
                      for c in case.get("cons", []))
-    v.nt(len(kinds) >= 2 or boundary or other_unit or case["kind"] in ("array", "imported", "same_literal", "cross_node"))
-    v.label(case["kind"], "accepted" if case["expect_ok"] else "rejected", *("con_" + k for k in kinds))
+    v.nt(len(kinds) >= 2 or boundary or other_unit or case["kind"] in ("array", "imported", "same_literal", "cross_node", "lines"))
+    v.label(case.get("what", case["kind"]), "accepted" if case["expect_ok"] else "rejected", *("con_" + k for k in kinds))
     if boundary:
         v.label("boundary")
+    if case.get("neg"):
+        v.label("negative_values_and_bounds")
     comps = [cm for c in case.get("cons", []) if c["k"] == "condition" for cm in c["comps"]]
     if any(cm.get("node") for cm in comps):
         v.label("node_vs_node")
